@@ -917,7 +917,7 @@ class Interp:
 
     def ex_BoolOp(self, node, env, fn):
         vals = [self.eval(v, env, fn) for v in node.values]
-        ts = [self.domain.truth(self, v) for v in vals]
+        ts = [True if isinstance(v, (ExtRef, FuncRef, ClassRef, ModRef, LambdaRef)) else self.domain.truth(self, v) for v in vals]
         if isinstance(node.op, ast.Or):
             # `a or b`: first truthy
             out = []
